@@ -48,6 +48,9 @@ pub struct Policy {
     pub p_noop: f64,
     #[serde(default)]
     pub p_run: f64,
+    /// bridge hosts: probability of offering malformed bytes (as an event or as a response)
+    #[serde(default)]
+    pub p_bad: f64,
 }
 
 #[derive(Deserialize, Serialize, Clone, Debug)]
@@ -70,6 +73,8 @@ fn ev_json(e: &Event) -> Value {
     match e {
         Event::Run(p) => json!({"kind":"run","p":p}),
         Event::Noop => json!({"kind":"noop"}),
+        Event::Data(d) => json!({"kind":"data","n":d.len()}),
+        Event::Text(t) => json!({"kind":"text","n":t.len()}),
         Event::Em { o, tag, val } => json!({"kind":"ev","o":o,"tag":tag,"val":val}),
     }
 }
@@ -112,6 +117,14 @@ pub trait Host {
         false
     }
     fn abortable(&self) -> Vec<[u32; 2]>;
+    /// bridge only: (valid encodings of a few events, valid encoding of a response value)
+    fn seeds(&self) -> Option<(Vec<Vec<u8>>, Vec<u8>)> {
+        None
+    }
+    /// would the bridge's deserializer accept these bytes as an event / as a response?
+    fn decodes(&self, _bytes: &[u8], _as_event: bool) -> bool {
+        true
+    }
 }
 
 // ---------------------------------------------------------------------------------------------
@@ -499,18 +512,103 @@ impl Host for BridgeHost {
         Some(Obs { line: json!({"e":"abort","c":c}), new_ops: vec![], kinds: vec![] })
     }
     fn bad_event(&mut self, bytes: &[u8]) -> Option<Obs> {
+        crate::alloc::reset_peak();
+        let t0 = std::time::Instant::now();
         let r = self.call(None, bytes);
-        Some(self.obs(json!({"e":"bad_event","n":bytes.len()}), r))
+        let (us, peak) = (t0.elapsed().as_micros() as u64, crate::alloc::peak());
+        Some(self.obs(json!({"e":"bad_event","n":bytes.len(),"us":us,"peak":peak}), r))
     }
     fn bad_response(&mut self, o: [u32; 3], bytes: &[u8]) -> Option<Obs> {
         let id = *self.ids.get(&o)?;
+        crate::alloc::reset_peak();
+        let t0 = std::time::Instant::now();
         let r = self.call(Some(id), bytes);
-        Some(self.obs(json!({"e":"bad_response","o":o,"id":id,"n":bytes.len()}), r))
+        let (us, peak) = (t0.elapsed().as_micros() as u64, crate::alloc::peak());
+        Some(self.obs(json!({"e":"bad_response","o":o,"id":id,"n":bytes.len(),"us":us,"peak":peak}), r))
     }
     fn abortable(&self) -> Vec<[u32; 2]> {
         let mut v: Vec<_> = self.ctx.aborts.lock().unwrap().keys().map(|k| [k.0, k.1]).collect();
         v.sort();
         v
+    }
+    fn seeds(&self) -> Option<(Vec<Vec<u8>>, Vec<u8>)> {
+        Some((
+            vec![
+                self.enc(&Event::Run(0)),
+                self.enc(&Event::Noop),
+                self.enc(&Event::Em { o: [1, 2, 3], tag: 4, val: 5 }),
+                self.enc(&Event::Data(vec![7; 9])),
+                self.enc(&Event::Text("héllo".into())),
+            ],
+            self.enc(&7u32),
+        ))
+    }
+    fn decodes(&self, bytes: &[u8], as_event: bool) -> bool {
+        use bincode::Options;
+        match (&self.bridge, as_event) {
+            (AnyBridge::Bin(_), true) => bincode_opts().deserialize::<Event>(bytes).is_ok(),
+            (AnyBridge::Bin(_), false) => bincode_opts().deserialize::<u32>(bytes).is_ok(),
+            // the JSON bridge reads one value from a streaming deserializer (no end-of-input check)
+            (AnyBridge::Json(_), true) => {
+                let mut de = serde_json::Deserializer::from_slice(bytes);
+                <Event as Deserialize>::deserialize(&mut de).is_ok()
+            }
+            (AnyBridge::Json(_), false) => {
+                let mut de = serde_json::Deserializer::from_slice(bytes);
+                <u32 as Deserialize>::deserialize(&mut de).is_ok()
+            }
+        }
+    }
+}
+
+/// Malformed variants of a valid encoding: random bytes, truncation, extension, bit flips,
+/// corrupted length / tag fields.
+pub fn mutate(rng: &mut StdRng, seed: &[u8]) -> Vec<u8> {
+    let mut b = seed.to_vec();
+    match rng.random_range(0..8) {
+        0 => (0..rng.random_range(0..40)).map(|_| rng.random()).collect(),
+        1 => {
+            let n = if b.is_empty() { 0 } else { rng.random_range(0..b.len()) };
+            b.truncate(n);
+            b
+        }
+        2 => {
+            for _ in 0..rng.random_range(1..4) {
+                if !b.is_empty() {
+                    let i = rng.random_range(0..b.len());
+                    b[i] ^= 1 << rng.random_range(0..8);
+                }
+            }
+            b
+        }
+        3 => {
+            // length / tag field corruption: overwrite an aligned 4/8-byte word with a huge value
+            if b.len() >= 8 {
+                let i = rng.random_range(0..=(b.len() - 8) / 4) * 4;
+                let v: u64 = [u64::MAX, 1 << 40, 1 << 31, 0xffff_ffff][rng.random_range(0..4)];
+                b[i..i + 8].copy_from_slice(&v.to_le_bytes());
+            } else {
+                b = vec![0xff; 12];
+            }
+            b
+        }
+        4 => vec![],
+        5 => {
+            // textual damage (matters for JSON)
+            let junk: &[&[u8]] = &[b"{", b"[[[[[[[[", b"\"", b"null", b"-1", b"1e999", b"{\"Run\":", b"\xff\xfe"];
+            let j = junk[rng.random_range(0..junk.len())];
+            let at = if b.is_empty() { 0 } else { rng.random_range(0..b.len()) };
+            b.splice(at..at, j.iter().copied());
+            b
+        }
+        6 => {
+            let deep = rng.random_range(100..3000);
+            std::iter::repeat(b'[').take(deep).collect()
+        }
+        _ => {
+            b.reverse();
+            b
+        }
     }
 }
 
@@ -611,6 +709,27 @@ pub fn run_case(case: &Case) -> Vec<Value> {
         while n < pol.max && !dead {
             n += 1;
             let x: f64 = rng.random();
+            if rng.random::<f64>() < pol.p_bad {
+                if let Some((evs, resp)) = host.seeds() {
+                    let as_event = known.ops.is_empty() || rng.random::<bool>();
+                    let seed = if as_event { evs[rng.random_range(0..evs.len())].clone() } else { resp };
+                    let bytes = mutate(&mut rng, &seed);
+                    if !host.decodes(&bytes, as_event) {
+                        let step = if as_event {
+                            StepIn::BadEvent { bytes }
+                        } else {
+                            let (o, _) = known.ops[rng.random_range(0..known.ops.len())];
+                            StepIn::BadResponse { o, bytes }
+                        };
+                        if let Some(l) = do_step(&mut host, &mut known, &step) {
+                            dead = l["e"] == "panic";
+                            lines.push(l);
+                            executed.push(step);
+                        }
+                        continue;
+                    }
+                }
+            }
             let step = if x < pol.p_run && !case.table.progs.is_empty() && case.host != "direct" && case.host != "stream" {
                 StepIn::Run { p: rng.random_range(0..case.table.progs.len() as u32) }
             } else if x < pol.p_run + pol.p_noop {
